@@ -122,8 +122,16 @@ def _rand_block_class():
                 if mode < p.get('p_far', .25) and pool: return pool[rng.randrange(min(3, len(pool)))]      # long forward edges from the first wires
                 if mode < p.get('p_far', .25) + p.get('p_near', .35) and recent: return rng.choice(recent[-3:])   # deep chains
                 return rng.choice(pool)
-            def pick1():
-                c = [w for w in pool if w.getWidth() == 1]
+            _pick = pick
+            def pick(*avoid):
+                # distinct_pins: the pins of one child get different wires (otherwise placeAndRoute's 'Multiple nets between
+                # source and sink' exception aborts pass-through creation early and the rest of that code is not exercised)
+                for _ in range(8):
+                    w = _pick()
+                    if not p.get('distinct_pins') or all(w is not x for x in avoid): return w
+                return w
+            def pick1(*avoid):
+                c = [w for w in pool if w.getWidth() == 1 and (not p.get('distinct_pins') or all(w is not x for x in avoid))]
                 if c: return rng.choice(c)
                 a = pick(); r = new(1); i = rng.randrange(a.getWidth()); n = cnt[0]
                 recipe.append(('bit', lambda: py4hw.Bit(self, 'b%d' % n, a, i, r)))
@@ -132,7 +140,8 @@ def _rand_block_class():
                                        'neg', 'cmp', 'buf', 'andn', 'same2', 'abs', 'equal']
             for k in range(p['n_blocks']):
                 kind = rng.choice(kinds); n = 'u%d' % k
-                a, b = pick(), pick()
+                if kind == 'same2' and p.get('distinct_pins'): kind = 'xor2'
+                a = pick(); b = pick(a)
                 if kind in ('and2', 'or2', 'xor2'):
                     r = new(rng.choice([a.getWidth(), b.getWidth()]))
                     cls = {'and2': py4hw.And2, 'or2': py4hw.Or2, 'xor2': py4hw.Xor2}[kind]
@@ -142,7 +151,9 @@ def _rand_block_class():
                     cls = rng.choice([py4hw.And2, py4hw.Xor2, py4hw.Add])
                     recipe.append((kind, lambda cls=cls, n=n, a=a, r=r: cls(self, n, a, a, r)))
                 elif kind == 'andn':
-                    m = rng.randint(3, 5); xs = [pick() for _ in range(m)]; r = new(xs[0].getWidth())
+                    m = rng.randint(3, 5); xs = []
+                    for _ in range(m): xs.append(pick(*xs))
+                    r = new(xs[0].getWidth())
                     cls = rng.choice([py4hw.And, py4hw.Or])
                     recipe.append((kind, lambda cls=cls, n=n, xs=xs, r=r: cls(self, n, xs, r)))
                 elif kind == 'not':
@@ -162,10 +173,11 @@ def _rand_block_class():
                 elif kind == 'abs':
                     r = new(a.getWidth()); recipe.append((kind, lambda n=n, a=a, r=r: py4hw.Abs(self, n, a, r)))
                 elif kind == 'equal':
-                    if a.getWidth() != b.getWidth(): b = a
+                    if a.getWidth() != b.getWidth():
+                        b = new(a.getWidth()); recipe.append(('const', lambda n=n, b=b: py4hw.Constant(self, n + 'k', 1, b)))
                     r = new(1); recipe.append((kind, lambda n=n, a=a, b=b, r=r: py4hw.Equal(self, n, a, b, r)))
                 elif kind == 'mux2':
-                    s = pick1(); r = new(a.getWidth())
+                    s = pick1(a, b); r = new(a.getWidth())
                     recipe.append((kind, lambda n=n, s=s, a=a, b=b, r=r: py4hw.Mux2(self, n, s, a, b, r)))
                 elif kind == 'range':
                     hi = rng.randrange(a.getWidth()); lo = rng.randint(0, hi); r = new(hi - lo + 1)
@@ -183,7 +195,8 @@ def _rand_block_class():
                     r = new(a.getWidth() + rng.randint(0, 4))
                     recipe.append((kind, lambda n=n, a=a, r=r: py4hw.SignExtend(self, n, a, r)))
                 elif kind == 'cmp':
-                    if a.getWidth() != b.getWidth(): b = a
+                    if a.getWidth() != b.getWidth():
+                        b = new(a.getWidth()); recipe.append(('const', lambda n=n, b=b: py4hw.Constant(self, n + 'k', 1, b)))
                     gt, eq, lt = new(1), new(1), new(1)
                     recipe.append((kind, lambda n=n, a=a, b=b, gt=gt, eq=eq, lt=lt: py4hw.Comparator(self, n, a, b, gt, eq, lt)))
                     pool.extend([gt, eq]); r = lt
@@ -194,8 +207,8 @@ def _rand_block_class():
                 elif cands: d = rng.choice(cands)
                 else:
                     src = pick(); d = new(q.getWidth()); recipe.append(('buf', lambda src=src, d=d, i=i: py4hw.Buf(self, 'rb%d' % i, src, d)))
-                en = pick1() if rng.random() < .5 else None
-                rs = pick1() if rng.random() < .5 else None
+                en = pick1(d) if rng.random() < .5 else None
+                rs = pick1(d, en) if rng.random() < .5 else None
                 recipe.append(('reg', lambda i=i, d=d, q=q, en=en, rs=rs: py4hw.Reg(self, 'r%d' % i, d, q, enable=en, reset=rs)))
             # out-ports: driven through a Buf from a random internal wire (widths follow), or feed-through of an in-port
             for j, o in enumerate(outs):
@@ -223,7 +236,9 @@ def rand_params(rng, i):
         {'n_blocks': 16, 'n_in': 3, 'n_out': 3, 'n_regs': 3},
     ]
     p = dict(shapes[i % len(shapes)])
+    if i % 50 == 49: p.update(n_blocks=rng.choice([25, 40]), n_in=4, n_out=3, n_regs=rng.choice([0, 3, 6]))      # big ones (thorough tier reaches them)
     p['max_w'] = rng.choice([1, 4, 8])
+    p['distinct_pins'] = (i // len(shapes)) % 2 == 0
     return p
 
 
